@@ -172,6 +172,17 @@ CHECKS["C09"] = dict(
     technique="TLA+ OpenMP data-sharing semantics; TLC explores all schedules/interleavings of the exported real directive",
     design_ref="DESIGN.md section 4 C09, F.11", engine="FortranSem")
 
+CHECKS["C13"] = dict(
+    level="model_checking",
+    text=("ACCDataTrans (alone and around ACCKernelsTrans regions) is applied to every range of consecutive "
+          "top-level statements of generated routines; the copyin/copyout/copy clauses of the real directive "
+          "node are exported and TLC executes host program and data-region program under FortranSem.tla, "
+          "where the region body runs against separate device copies of the clause arrays (copyout copies "
+          "start undefined), on every input: host arrays equal, no undefined device read, no undefined "
+          "element copied back over host data."),
+    note=SEM_NOTE, technique=SEM_TECH + " with a separate device store for OpenACC data regions",
+    design_ref="DESIGN.md section 4 C13, F.11", engine="FortranSem")
+
 NOT_YET = {}
 
 ALL = [f"C{i:02d}" for i in range(1, 30)]
